@@ -185,7 +185,7 @@ func (e *Enc) sid(s model.Sym, tab *SymTab) (uint64, error) {
 	if !s.Known {
 		if e.UndefinedSlots {
 			ids := []int{0}
-			for i := 1; i < len(tab.Slots); i++ {
+			for i := 1; i < len(tab.Slots)-tab.NLocal; i++ { // import placeholders only
 				if !tab.Slots[i].Known {
 					ids = append(ids, i)
 				}
@@ -639,6 +639,13 @@ func (e *Enc) Doc(vals []model.Value) ([]byte, error) {
 		}
 		if e.rarely("ivm.repeated", 14) {
 			b = append(b, IVM...)
+			// the marker resets the context: declare the symbols again, in another
+			// order, so that a reader that kept the old table resolves wrongly
+			if len(locals) > 1 {
+				k := 1 + e.C.Intn(len(locals)-1)
+				locals = append(append([]Slot{}, locals[k:]...), locals[:k]...)
+				tab, _ = BuildLocal(nil, locals, nil)
+			}
 			emitTable()
 		}
 		var err error
